@@ -40,7 +40,8 @@ def add_observations(crate, project, ptable, rng, max_keys=40):
             keys.append((ns, path))
     rng.shuffle(keys)
     # deep paths first: they carry the scoping flavours
-    keys.sort(key=lambda k: -len(k[1]))
+    keys.sort(key=lambda k: (-len(k[1]), not k[1][-1].startswith("long_")))
+    keys = [k for k in keys if k[1][-1].startswith("long_")] + [k for k in keys if not k[1][-1].startswith("long_")]
     for ns, path in keys[:max_keys]:
         per_loc = {}
         allv, allc, allcnt = {}, set(), {}
